@@ -84,7 +84,7 @@ func init() {
 			for k := 0; k < nFmtKinds; k++ {
 				obs = append(obs, Oblig{Harness: "H_conf", Args: []int{k}})
 			}
-			for k := 100; k < 112; k++ {
+			for k := 100; k < 114; k++ {
 				obs = append(obs, Oblig{Harness: "H_conf", Args: []int{k}})
 			}
 			return obs
@@ -240,6 +240,9 @@ func c04Obligs(tier string) []Oblig {
 			}
 		}
 	}
+	for _, d := range []int{0, 3, 16} {
+		obs = append(obs, Oblig{Harness: "H_c04", Args: []int{0, d, 3}})
+	}
 	for _, k1 := range []int{0, 3, 14, 27, 31, 10, 1, 36} {
 		for _, k2 := range []int{0, 3, 10, 27, 19} {
 			obs = append(obs, Oblig{Harness: "H_c04p", Args: []int{k1, k2, 2}})
@@ -264,7 +267,7 @@ func init() {
 }
 
 
-var c02RedactKinds = []int{103, 104, 105, 106, 110, 111}
+var c02RedactKinds = []int{103, 104, 105, 106, 110, 111, 112, 113}
 
 func hasPrecision(d int) bool {
 	switch d {
@@ -318,6 +321,20 @@ func c02Obligs(tier string) []Oblig {
 			}
 		}
 	}
+	// an unrelated earlier call first (recycled printers, adversarial pool)
+	pres := []int{13, 5}
+	pk := []int{0, 14, 103, 110}
+	if tier == "thorough" {
+		pres = []int{13, 14, 5, 6, 8}
+		pk = []int{0, 3, 14, 27, 103, 106, 110}
+	}
+	for _, pre := range pres {
+		for _, k := range pk {
+			for _, d := range []int{0, 16} {
+				obs = append(obs, Oblig{Harness: "H_c02", Args: []int{k, d, 1, -1, pre}, PoolMode: 1})
+			}
+		}
+	}
 	if tier == "thorough" {
 		for _, k := range kinds {
 			if !isStr[k] {
@@ -351,7 +368,7 @@ func init() {
 	})
 }
 
-var redactKinds = []int{100, 101, 102, 103, 104, 105, 106, 107, 108, 109, 110, 111}
+var redactKinds = []int{100, 101, 102, 103, 104, 105, 106, 107, 108, 109, 110, 111, 112, 113}
 
 func valsObligs(tier string) []Oblig {
 	var obs []Oblig
@@ -757,8 +774,15 @@ var nestCodes = []int{1, 2, 12, 21, 11, 22, 121, 212, 112, 221, 122, 211}
 
 func c06Obligs(tier string) []Oblig {
 	var obs []Oblig
-	kinds := []int{0, 3, 10, 14, 19, 21, 27, 31, 35, 36, 100, 101, 102, 103, 104, 105, 106, 107, 108, 110, 111}
+	kinds := []int{0, 3, 10, 14, 19, 21, 27, 31, 35, 36, 100, 101, 102, 103, 104, 105, 106, 107, 108, 110, 111, 112, 113}
 	dirs := []int{0, 1, 2, 3, 4, 5, 16, 19}
+	for _, pre := range []int{13, 14, 5, 6} {
+		for _, code := range []int{1, 2} {
+			for _, k := range []int{0, 3, 14, 100, 106, 112} {
+				obs = append(obs, Oblig{Harness: "H_c06", Args: []int{code, k, 0, 1, pre}, PoolMode: 1})
+			}
+		}
+	}
 	for _, code := range nestCodes {
 		for _, k := range kinds {
 			for _, d := range dirs {
@@ -791,17 +815,27 @@ func c05Obligs(tier string) []Oblig {
 	if tier == "thorough" {
 		n = 3
 	}
-	for l1 := 0; l1 < 9; l1++ {
+	for _, pre := range []int{13, 14, 5, 6} {
+		for _, ls := range [][]int{{0, 2, 1}, {3, 0, 4}, {6, 1, 0}, {0, 0, 8}} {
+			for _, shape := range []int{0, 1, 4} {
+				obs = append(obs, Oblig{Harness: "H_c05", Args: []int{ls[0], ls[1], ls[2], shape, 0, 1, 0, pre}, PoolMode: 1})
+			}
+		}
+	}
+	for l1 := 0; l1 < 10; l1++ {
 		for _, l2 := range []int{0, 2, 3, 5, 6} {
 			for _, l3 := range []int{0, 1, 4} {
 				for shape := 0; shape < 5; shape++ {
+					if l1 == 9 && shape != 0 && shape != 4 {
+						continue // a reflect.Value operand is unwrapped at top level only (in fmt too)
+					}
 					fis := []int{0}
 					if shape == 0 {
 						fis = []int{0, 1, 2, 3, 4}
 					}
 					for _, fi := range fis {
 						reg := 0
-						if l1 == 5 || l2 == 5 {
+						if l1 == 5 || l2 == 5 || l1 == 9 {
 							obs = append(obs, Oblig{Harness: "H_c05", Args: []int{l1, l2, l3, shape, fi, n, 1}})
 						}
 						if tier != "thorough" && shape > 0 && l3 != 0 {
